@@ -26,7 +26,7 @@ import (
 
 // engine qreconcile: the REAL controller runtime with one probe QController whose
 // Reconcile outcomes are scripted per key (ok / error / panic / skip / requeue with and
-// without error / canceled). Under synctest the invocation times are exact; each gap
+// without error / canceled; requeue intervals include the boundary value 0). Under synctest the invocation times are exact; each gap
 // between two invocations of a key is classified against the interval written on the
 // previous op line (which the Lean model re-derives and confirms line by line), never
 // printed as a value (C09 backoff_schedule, outcome_table).
@@ -46,7 +46,7 @@ func (*qrecEngine) Cases(thorough bool) int {
 }
 
 func (*qrecEngine) Rule() string {
-	return "scripted outcome sequences for 1-3 keys, concurrency 1-3, on the real q-runtime under synctest; non-trivial = some key has a streak of >= 3 consecutive failures, a reset (failure after an ok/skip that followed a failure) and an explicit requeue interval; distinct by hash of the op lines"
+	return "scripted outcome sequences (ok, error, panic, skip, RequeueError with/without error or skip and intervals 0, 1 ns … 5 s, context.Canceled) for 1-3 keys, concurrency 1-3, on the real q-runtime under synctest; non-trivial = some key has a streak of >= 3 consecutive failures, a reset (failure after an ok/skip that followed a failure) and an explicit requeue interval; distinct by hash of the op lines"
 }
 
 func (*qrecEngine) NonTrivial(c Case, _ []string) bool {
@@ -75,7 +75,23 @@ func (*qrecEngine) NonTrivial(c Case, _ []string) bool {
 				long = true
 			}
 		case "requeue-error":
-			explicit = true
+			if a.Int("i") != 0 {
+				explicit = true
+
+				break
+			}
+
+			// RequeueError{err, 0}: a plain failure
+			if streak[k] == 0 && hadFail[k] {
+				reset = true
+			}
+
+			streak[k]++
+			hadFail[k] = true
+
+			if streak[k] >= 3 {
+				long = true
+			}
 		default:
 			streak[k] = 0
 
@@ -104,10 +120,16 @@ func goBounds(n int) (int64, int64) {
 	return cur / 2, cur + cur/2 + 1
 }
 
-func releaseKind(o string) bool {
-	switch o {
+// qrecReleases says whether the scripted outcome ends with the item simply released (the next invocation
+// needs a fresh notification) — by the property, not by the code: ok / skip / canceled, and a requeue request
+// WITHOUT error whose interval is zero (NewRequeueInterval(0): nothing to wait for). A failure is never a
+// release, whatever interval it carries: NewRequeueError(err, 0) has to be retried like err.
+func qrecReleases(a Args) bool {
+	switch a["o"] {
 	case "ok", "skip", "canceled", "requeue-canceled":
 		return true
+	case "requeue", "skip-requeue":
+		return a.Int("i") == 0
 	}
 
 	return false
@@ -156,7 +178,9 @@ func (e *qrecEngine) Gen(r *Rand, thorough bool, idx int) Case {
 			}
 
 			if strings.Contains(o, "requeue") {
-				iv = Pick(r, []int64{1, 1_000_000, 100_000_000, 100_000_000, 1_000_000_000, 5_000_000_000})
+				// the boundary value 0 included: RequeueError{err, 0} is a failure without an interval of its own,
+				// RequeueError{nil, 0} / {skip, 0} is nothing at all
+				iv = Pick(r, []int64{0, 0, 1, 1_000_000, 100_000_000, 100_000_000, 1_000_000_000, 5_000_000_000})
 			}
 
 			var lo, hi int64
@@ -166,7 +190,12 @@ func (e *qrecEngine) Gen(r *Rand, thorough bool, idx int) Case {
 				lo, hi = goBounds(streak)
 				streak++
 			case "requeue-error":
-				lo, hi = iv, iv
+				if iv == 0 {
+					lo, hi = goBounds(streak)
+					streak++
+				} else {
+					lo, hi = iv, iv
+				}
 			case "requeue", "skip-requeue":
 				lo, hi = iv, iv
 				streak = 0
@@ -202,6 +231,31 @@ func (e *qrecEngine) Gen(r *Rand, thorough bool, idx int) Case {
 	c.Ops = append(c.Ops, "end")
 
 	return c
+}
+
+// Corpus: every outcome class once with the boundary interval 0 and once with a positive interval, each followed
+// by an `ok` line that shows whether (and when) the key was reconciled again.
+func (*qrecEngine) Corpus(bool) []Case {
+	l0, h0 := goBounds(0)
+	l1, h1 := goBounds(1)
+	ln := func(k int, o string, iv, lo, hi int64) string {
+		return fmt.Sprintf("outcome k=%d o=%s i=%d lo=%d hi=%d", k, o, iv, lo, hi)
+	}
+
+	return []Case{
+		{Header: "# engine=qreconcile keys=1 conc=1 case=corpus-requeue-error-zero", Ops: []string{
+			ln(1, "requeue-error", 0, l0, h0), ln(1, "ok", 0, 0, 0), "end",
+		}},
+		{Header: "# engine=qreconcile keys=2 conc=2 case=corpus-zero-intervals", Ops: []string{
+			ln(1, "error", 0, l0, h0), ln(2, "requeue", 0, 0, 0), ln(1, "requeue-error", 0, l1, h1), ln(2, "skip-requeue", 0, 0, 0),
+			ln(1, "requeue-error", 7, 7, 7), ln(2, "requeue-canceled", 0, 0, 0), ln(1, "ok", 0, 0, 0), ln(2, "requeue-error", 0, l0, h0),
+			ln(1, "requeue-error", 0, l0, h0), ln(2, "ok", 0, 0, 0), ln(1, "ok", 0, 0, 0), "end",
+		}},
+		{Header: "# engine=qreconcile keys=1 conc=1 case=corpus-positive-intervals", Ops: []string{
+			ln(1, "requeue", 100_000_000, 100_000_000, 100_000_000), ln(1, "requeue-error", 1, 1, 1), ln(1, "skip-requeue", 1_000_000, 1_000_000, 1_000_000),
+			ln(1, "panic", 0, l0, h0), ln(1, "ok", 0, 0, 0), "end",
+		}},
+	}
 }
 
 type qInvocation struct {
@@ -373,7 +427,7 @@ func (e *qrecEngine) Exec(t *testing.T, c Case) []string {
 				}
 
 				pending = true
-				idle := n == 0 || releaseKind(p.script[id][n-1]["o"])
+				idle := n == 0 || qrecReleases(p.script[id][n-1])
 
 				if _, touched := touchAt[id][n]; idle && !touched {
 					touch(id, n)
@@ -464,7 +518,7 @@ func (e *qrecEngine) Exec(t *testing.T, c Case) []string {
 				continue
 			}
 
-			if j == 0 || releaseKind(p.script[id][j-1]["o"]) {
+			if j == 0 || qrecReleases(p.script[id][j-1]) {
 				if at, ok := touchAt[id][j]; ok && at.Equal(inv[j].at) {
 					out = append(out, "run gap=touch")
 				} else {
